@@ -250,6 +250,16 @@ def Coll.defCapacity (c : Coll) : Option Nat :=
   | none => none
   | some b => if c.lists.length = 0 then none else some (b.size / c.lists.length)
 
+/-- the loop of `def_capacity(pool)` (D31 repair): the capacity is raised until the list can hold one node of its size;
+at most `chunk_memory_offset + 2` rounds are ever needed (`Props/C01.lean`, `growCapacity_enough_small`) -/
+def growCapacity (l : AnyList) : Nat → Nat → Nat
+  | 0, cap => cap
+  | fuel + 1, cap =>
+    if l.usableSize cap < l.nodeSize then growCapacity l fuel (add64 cap (l.nodeSize - l.usableSize cap)) else cap
+
+/-- `def_capacity(pool)` -/
+def Coll.defCapacityFor (c : Coll) (l : AnyList) : Option Nat := c.defCapacity.map (growCapacity l 64)
+
 def Coll.capacityLeft (c : Coll) : Option Nat := c.blockEnd.map fun e => sub64 e c.cur
 def Coll.nextCapacity (c : Coll) : Nat := c.arena.nextBlockSize
 
@@ -308,7 +318,8 @@ def Coll.allocateNode (cfg : Cfg) (c : Coll) (size : Nat) (env : List (Option Na
   else
     let i := c.listIndex size
     match c.lists[i]?, c.defCapacity with
-    | some l, some dc =>
+    | some l, some dc0 =>
+      let dc := growCapacity l 64 dc0
       let step : PRes Coll :=
         if l.empty then
           match c.reserve cfg i dc env with
@@ -337,7 +348,8 @@ def Coll.tryAllocateNode (cfg : Cfg) (c : Coll) (size : Nat) : PRes Coll :=
   else
     let i := c.listIndex size
     match c.lists[i]?, c.defCapacity with
-    | some l, some dc =>
+    | some l, some dc0 =>
+      let dc := growCapacity l 64 dc0
       let c1 : Option Coll := if l.empty then c.tryReserve cfg i dc else some c
       match c1 with
       | none => ⟨c, .crash, []⟩
@@ -372,7 +384,8 @@ def Coll.allocateArray (cfg : Cfg) (c : Coll) (count size : Nat) (env : List (Op
     let i := c.listIndex size
     let bytes := mul64 count size
     match c.lists[i]?, c.defCapacity with
-    | some l, some dc =>
+    | some l, some dc0 =>
+      let dc := growCapacity l 64 dc0
       let first : Option (AnyList × Option Nat) := if l.empty then some (l, none) else l.allocateBytes bytes
       match first with
       | none => ⟨c, .crash, []⟩
@@ -420,7 +433,8 @@ def Coll.tryAllocateArray (cfg : Cfg) (c : Coll) (count size : Nat) : PRes Coll 
     let i := c.listIndex size
     let bytes := mul64 count size
     match c.lists[i]?, c.defCapacity with
-    | some l, some dc =>
+    | some l, some dc0 =>
+      let dc := growCapacity l 64 dc0
       let c1 : Option Coll := if l.empty then c.tryReserve cfg i dc else some c
       match c1 with
       | none => ⟨c, .crash, []⟩
